@@ -190,6 +190,115 @@ pub fn run_schedule<O: Send + 'static>(n: usize, body: Body<O>, prefix: &[usize]
     Execution { points: g.trace.clone(), outcomes, diverged: g.diverged.clone(), deadlock: false }
 }
 
+/// Run one schedule in a forked child process, so that every execution starts from the same
+/// process state whatever earlier executions did to the library's globals. The caller must be
+/// single-threaded at this point.
+pub fn run_schedule_forked(n: usize, body: Body<String>, prefix: &[usize], horizon: usize) -> Execution<String> {
+    use std::io::Read;
+    use std::os::unix::io::FromRawFd;
+    let mut fds = [0 as libc::c_int; 2];
+    unsafe {
+        if libc::pipe(fds.as_mut_ptr()) != 0 {
+            return Execution { points: vec![], outcomes: vec![], diverged: Some("pipe() failed".into()), deadlock: false };
+        }
+        let pid = libc::fork();
+        if pid < 0 {
+            return Execution { points: vec![], outcomes: vec![], diverged: Some("fork() failed".into()), deadlock: false };
+        }
+        if pid == 0 {
+            libc::close(fds[0]);
+            let x = run_schedule(n, body, prefix, horizon);
+            let doc = serde_json::json!({
+                "points": x.points.iter().map(|p| serde_json::json!([p.enabled, p.chosen, p.running_still_enabled, p.preemptions_before])).collect::<Vec<_>>(),
+                "outcomes": x.outcomes,
+                "diverged": x.diverged,
+                "deadlock": x.deadlock,
+            });
+            let text = doc.to_string();
+            let bytes = text.as_bytes();
+            let mut off = 0;
+            while off < bytes.len() {
+                let w = libc::write(fds[1], bytes[off..].as_ptr() as *const libc::c_void, bytes.len() - off);
+                if w <= 0 {
+                    break;
+                }
+                off += w as usize;
+            }
+            libc::close(fds[1]);
+            libc::_exit(0);
+        }
+        libc::close(fds[1]);
+        let mut f = std::fs::File::from_raw_fd(fds[0]);
+        let mut text = String::new();
+        let _ = f.read_to_string(&mut text);
+        let mut status = 0;
+        libc::waitpid(pid, &mut status, 0);
+        let v: serde_json::Value = serde_json::from_str(&text).unwrap_or(serde_json::Value::Null);
+        if v.is_null() {
+            return Execution { points: vec![], outcomes: vec![], diverged: Some(format!("forked execution produced no result (status {})", status)), deadlock: false };
+        }
+        let points = v["points"]
+            .as_array()
+            .map(|a| {
+                a.iter()
+                    .map(|p| Point {
+                        enabled: p[0].as_array().map(|e| e.iter().map(|x| x.as_u64().unwrap_or(0) as usize).collect()).unwrap_or_default(),
+                        chosen: p[1].as_u64().unwrap_or(0) as usize,
+                        running_still_enabled: p[2].as_bool().unwrap_or(false),
+                        preemptions_before: p[3].as_u64().unwrap_or(0) as u32,
+                    })
+                    .collect()
+            })
+            .unwrap_or_default();
+        Execution {
+            points,
+            outcomes: v["outcomes"].as_array().map(|a| a.iter().map(|x| x.as_str().unwrap_or("").to_string()).collect()).unwrap_or_default(),
+            diverged: v["diverged"].as_str().map(|s| s.to_string()),
+            deadlock: v["deadlock"].as_bool().unwrap_or(false),
+        }
+    }
+}
+
+/// Like `explore_threads`, with every execution in its own forked process.
+pub fn explore_threads_forked(
+    n: usize,
+    body: Body<String>,
+    bound: u32,
+    horizon: usize,
+    max_schedules: u64,
+    check: &mut dyn FnMut(&[usize], &Execution<String>),
+) -> ExploreStats {
+    let mut stats = ExploreStats::default();
+    let mut stack: Vec<Vec<usize>> = vec![vec![]];
+    while let Some(prefix) = stack.pop() {
+        if stats.schedules >= max_schedules {
+            stats.capped = true;
+            break;
+        }
+        let x = run_schedule_forked(n, body.clone(), &prefix, horizon);
+        stats.schedules += 1;
+        stats.max_points = stats.max_points.max(x.points.len());
+        let choices: Vec<usize> = x.points.iter().map(|p| p.chosen).collect();
+        check(&choices, &x);
+        if x.deadlock || x.diverged.is_some() {
+            continue;
+        }
+        for i in prefix.len()..x.points.len() {
+            let p = &x.points[i];
+            let cost = p.preemptions_before + if p.running_still_enabled { 1 } else { 0 };
+            if cost > bound {
+                continue;
+            }
+            for alt in 1..p.enabled.len() {
+                let mut np = choices[..i].to_vec();
+                np.push(alt);
+                stack.push(np);
+            }
+        }
+    }
+    stats
+}
+
 #[derive(Default, Debug, Clone)]
 pub struct ExploreStats {
     pub schedules: u64,
